@@ -441,7 +441,7 @@ uint64_t SetFp(const CoinSet& s)
 
 // ------------------------------------------------------------------------------------------------------------------
 // Plan
-enum OpKind { OP_TRY = 1, OP_CONNECT, OP_MEMPOOL, OP_INVALIDATE, OP_RECONSIDER, OP_BGVALIDATE, OP_REBUILD };
+enum OpKind { OP_TRY = 1, OP_CONNECT, OP_MEMPOOL, OP_INVALIDATE, OP_RECONSIDER, OP_BGVALIDATE, OP_REBUILD, OP_RACE };
 enum Mut {
     M_NONE, M_VALUE, M_HEIGHT, M_CBFLAG, M_SCRIPT_BYTE, M_SCRIPT_LEN, M_SCRIPT_KIND, M_VOUT, M_TXID, M_DROP, M_ADD, M_DUP, M_COUNT, M_BASEHASH,
     M_MAGIC, M_VERSION, M_NETMAGIC, M_GROUPCOUNT, M_REORDER, M_REENCODE, M_EMPTYGROUP, M_BITFLIP, M_BYTESET, M_TRUNC, M_APPEND, M_INSERT, M_DELETE, N_MUT
@@ -528,6 +528,7 @@ Plan Gen(uint64_t seed, Tier tier)
         case 4: ops.push_back(Op(OP_RECONSIDER, {(int64_t)rng.below(1000)})); break;
         default: ops.push_back(Op(OP_REBUILD, {(int64_t)rng.pick({4, 2, 3, 1}), (int64_t)rng.below(1000)})); break;
         }
+        if (rng.chance(1, 3)) ops.push_back(Op(OP_RACE, {(int64_t)rng.below(6), (int64_t)rng.below(2)}));
     };
     int nops = (int)rng.range(thorough ? 150 : 60, thorough ? 420 : 150);
     if (mode == 0) {
@@ -591,6 +592,7 @@ std::string Describe(const Op& op)
         return b;
     }
     case OP_CONNECT: snprintf(b, sizeof b, "target connects the next %ld blocks", (long)op.arg(0)); return b;
+    case OP_RACE: snprintf(b, sizeof b, "load the unmutated snapshot while the active chain advances (to base%+ld) between the first work check and the end of the load", (long)op.arg(0) - 2); return b;
     case OP_MEMPOOL: return op.arg(0) ? "target mempool: add a transaction" : "target mempool: drop all transactions";
     case OP_INVALIDATE: {
         static const char* w[] = {"the base block", "an ancestor of the base", "a block above the base", "a connected block"};
@@ -622,10 +624,18 @@ struct Cookie {
     uint64_t rs{1};
     bool fired{false};
     size_t short_reads{0};
+    //! interleaving seam: called once, from inside the first read at or beyond `hook_at` (the loader reads without holding cs_main)
+    std::function<void()> hook;
+    size_t hook_at{0};
 };
 ssize_t CookieRead(void* cp, char* buf, size_t n)
 {
     Cookie& c = *(Cookie*)cp;
+    if (c.hook && c.pos >= c.hook_at) {
+        auto h = std::move(c.hook);
+        c.hook = nullptr;
+        h();
+    }
     size_t limit = c.d->size();
     if ((c.mode == S_EOF || c.mode == S_EIO) && c.fault_at < limit) limit = c.fault_at;
     if (c.pos >= limit) {
@@ -1123,10 +1133,14 @@ struct Sim {
             }
             break;
         case M_BASEHASH:
-            switch (p2 % 7) {
+            switch (p2 % 9) {
+            case 7: case 8:
+                // the competing chain's block at the very height of the snapshot (same height as an assumeutxo block, different block)
+                if (snap_h >= 1 && (int)F.size() >= snap_h && (int)P.size() >= snap_h && F[snap_h - 1]->GetHash() != P[snap_h - 1]->GetHash()) { f.base = ToArr(F[snap_h - 1]->GetHash()); break; }
+                [[fallthrough]];
             case 0: f.base = rand_txid(); break;
             case 1: { int h = 1 + (int)(p3 % P.size()); if (h == snap_h) h = h > 1 ? h - 1 : h + 1; f.base = ToArr(P[h - 1]->GetHash()); break; }
-            case 2: case 3: case 4: { int i = (int)(p2 % 7) - 2; if (i == chain && src == 0) i = (i + 1) % 3; f.base = ToArr(U256(kCommit[i].blockhash)); break; }
+            case 2: case 3: case 4: { int i = (int)(p2 % 9) - 2; if (i == chain && src == 0) i = (i + 1) % 3; f.base = ToArr(U256(kCommit[i].blockhash)); break; }
             case 5: f.base = F.empty() ? rand_txid() : ToArr(F[p3 % F.size()]->GetHash()); break;
             default: f.base.fill(0); break;
             }
@@ -1229,10 +1243,12 @@ struct Sim {
         bool fault_fired{false};
         size_t short_reads{0};
     };
-    Outcome Activate(const Bytes& bytes, int smode, size_t fault_at, uint64_t sseed, bool in_memory)
+    Outcome Activate(const Bytes& bytes, int smode, size_t fault_at, uint64_t sseed, bool in_memory, std::function<void()> hook = nullptr, size_t hook_at = 0)
     {
         Outcome out;
         Cookie ck;
+        ck.hook = std::move(hook);
+        ck.hook_at = hook_at;
         ck.d = &bytes;
         ck.mode = smode;
         ck.fault_at = fault_at;
@@ -1381,6 +1397,43 @@ struct Sim {
         }
         if (out.err.rfind("Population failed", 0) == 0) ctx.probe("rejected_after_staging_chainstate");
         CheckUntouched(pre, where, with_flush);
+    }
+
+    /** The coin load of ActivateSnapshot runs without cs_main. Interleaving injected at the point where the loader announces the load
+     *  (a log line, i.e. after the up-front work check): the active chain connects blocks there, as message processing would on its
+     *  own thread. If the active tip has reached the base's work by the end of the load, the snapshot must not be activated. */
+    void DoRace(const Op& op)
+    {
+        if (t_fork_active || !marks.empty() || !pool_txs.empty() || t_hdr < base || snap[0].empty()) return;
+        const int active = ActiveHeight();
+        if (active >= base || active != t_blocks) return;
+        const int target_h = std::min<int>((int)P.size(), base - 2 + (int)op.mod(0, 6)); // base-2 .. base+3
+        if (target_h <= active) return;
+        // the hook fires inside the loader's first unbuffered read past the metadata and the first coin group header, i.e. after the
+        // up-front work check and before the final one
+        bool fired = false;
+        const Outcome out = Activate(snap[0], S_SHORT_UNBUF, 0, 1, (op.arg(1) & 1) != 0, [&] { fired = true; Connect(target_h); }, /*hook_at=*/80);
+        const int after = t_blocks;
+        char where[300];
+        snprintf(where, sizeof where, "unmutated snapshot (base %d) loaded while the active chain went from height %d to %d during the load (interleaving %s)", base, active, after, fired ? "taken" : "not reached");
+        ctx.evf("race %s -> %s [%.60s]", where, out.ok ? "ACTIVATED" : "rejected", out.err.c_str());
+        if (!fired) { ctx.probe("race_interleaving_point_not_reached"); }
+        else ctx.probe(after >= base ? "active_chain_reached_base_during_load" : "active_chain_advanced_during_load");
+        if (out.ok) {
+            if (fired && after >= base) ctx.failf(kReasonClass[R_WORK], "%s: ActivateSnapshot succeeded although the active tip has at least the work of the base block", where);
+            ++n_activated;
+            CheckActivated(P[base - 1]->GetHash(), committed, where);
+            BuildTarget(t_blocks >= base ? (int)ctx.knob("h0", 0) : t_blocks);
+            return;
+        }
+        // refused: no trace of the snapshot may stay, the validated chainstate is intact at its (new) tip
+        NodeState post = Capture();
+        for (auto& d : post.dir)
+            if (d.find("chainstate_snapshot") != std::string::npos) ctx.failf("rejected-snapshot-left-chainstate-dir", "%s: %s is left in the data directory", where, d.c_str());
+        if (post.chainstates.size() != 1 || post.snapshot_height != -1) ctx.failf("rejected-snapshot-changed-chainstates", "%s: %zu chainstates after the refusal", where, post.chainstates.size());
+        if (post.height != after) ctx.failf("rejected-snapshot-changed-tip", "%s: active tip height %d, expected %d", where, post.height, after);
+        if (T->Fatal()) ctx.failf("rejected-snapshot-fatal-error", "%s", where);
+        CheckTargetUtxo("rejected-snapshot-changed-utxo", where, false);
     }
 
     void DoMempool(const Op& op)
@@ -1584,6 +1637,7 @@ struct Sim {
             case OP_INVALIDATE: DoInvalidate(op); break;
             case OP_RECONSIDER: DoReconsider(op); break;
             case OP_BGVALIDATE: DoBgValidate(op); break;
+            case OP_RACE: DoRace(op); break;
             case OP_REBUILD: DoRebuild(op); break;
             }
             if (T->Fatal() && op.kind != OP_BGVALIDATE) ctx.failf("target-fatal-error", "%s", T->notifications->fatal_errors.empty() ? T->notifications->flush_errors[0].c_str() : T->notifications->fatal_errors[0].c_str());
